@@ -514,22 +514,18 @@ func (c *provCtx) walk(v ssa.Value, d int) {
 				idx = i
 			}
 		}
-		node := c.p.CG().Nodes[fn]
 		n := 0
-		if node != nil && idx >= 0 {
-			for _, e := range node.In {
-				if !c.p.IsRepoFn(e.Caller.Func) {
+		if idx >= 0 {
+			for _, site := range c.p.Callers(fn) {
+				if only, ok := c.only[fn]; ok && only != site {
 					continue
 				}
-				if site, ok := c.only[fn]; ok && site != e.Site {
-					continue
-				}
-				args := e.Site.Common().Args
+				args := site.Common().Args
 				ai := idx
-				if e.Site.Common().IsInvoke() {
+				if site.Common().IsInvoke() {
 					ai = idx - 1 // receiver is not in Args
 					if ai < 0 {
-						c.walk(e.Site.Common().Value, d+1)
+						c.walk(site.Common().Value, d+1)
 						n++
 						continue
 					}
